@@ -299,7 +299,7 @@ def validate_chunk(events):
         cfg = tlc.cfg_text(constants={"Family": '"trace"', "Tier": '"quick"', "Part": "0", "NParts": "1"}, defs=defs,
                            init="TInit", next_="TNext", invariants=["Conforms"])
         r = tlc.run(TRACE_MODULE, cfg, defs=defs, workers=2, env=dict(c17.JVM_ENV, TRACE_FILE=path), continue_=True,
-                    timeout=1200)
+                    timeout=3600)
     finally:
         os.unlink(path)
     bad = {int(a): b for a, b in re.findall(r'mismatch = <<(\d+), "([^"]*)">>', r.out)}
